@@ -43,11 +43,62 @@ harness!(c04_add_f64_structural, unwind = 2, |s| {
     let ts = any_scale(s);
     let d = any_canonical(s);
     let x = s.f64();
-    s.assume(x.is_finite() && x > -4.0e9 && x < 4.0e9);
+    s.assume(x.is_finite() && x > -1.0e11 && x < 1.0e11);
     let e = Epoch::from_duration(d, ts);
     let r = e + x;
     let want = e + x * Unit::Second;
     v_assert!(s, r.time_scale == ts && want.time_scale == ts, "scale unchanged");
     v_assert!(s, r.duration.to_parts() == want.duration.to_parts(), "Epoch + f64 adds f64 * Unit::Second to the elapsed time");
     v_cover!(x < 0.0, "negative reachable");
+    v_cover!(x > 1.0e10, "beyond the i64 nanosecond range reachable");
+});
+
+// The Unit / assign forms on a UTC epoch (E2 decides them with the scale symbolic; this twin keeps a
+// verdict when a change routes them through a leap-second conversion that E2 cannot encode).
+harness!(c04_forms_utc, unwind = 44, |s| {
+    let c = s.i16();
+    let n = s.u64();
+    s.assume((c == 0 || c == 1) && n < NPC);
+    let d = Duration::from_parts(c, n);
+    let u = any_unit(s);
+    let ns = unit_ns(u) as i128;
+    let e = Epoch::from_duration(d, TimeScale::UTC);
+    let plus = shift_parts(d.to_parts(), ns);
+    let minus = shift_parts(d.to_parts(), -ns);
+    let mut a = e;
+    a += u;
+    let mut b = e;
+    b -= u;
+    v_assert!(s, Some((e + u).duration.to_parts()) == plus && (e + u).time_scale == TimeScale::UTC, "UTC epoch + Unit");
+    v_assert!(s, Some((e - u).duration.to_parts()) == minus && (e - u).time_scale == TimeScale::UTC, "UTC epoch - Unit");
+    v_assert!(s, Some(a.duration.to_parts()) == plus && a.time_scale == TimeScale::UTC, "UTC epoch += Unit");
+    v_assert!(s, Some(b.duration.to_parts()) == minus && b.time_scale == TimeScale::UTC, "UTC epoch -= Unit");
+    let x = Duration::from_parts(0, unit_ns(u));
+    let mut a2 = e;
+    a2 += x;
+    let mut b2 = e;
+    b2 -= x;
+    v_assert!(s, Some(a2.duration.to_parts()) == plus && Some((e + x).duration.to_parts()) == plus, "UTC epoch + / += Duration");
+    v_assert!(s, Some(b2.duration.to_parts()) == minus && Some((e - x).duration.to_parts()) == minus, "UTC epoch - / -= Duration");
+    v_cover!(c == 1, "21st century reachable");
+});
+
+// Epoch - Epoch with a UTC operand: measured in the left operand's scale after re-expressing the right one
+harness!(c04_diff_utc_tai, unwind = 44, |s| {
+    let cu = s.i16();
+    let nu = s.u64();
+    let ct = s.i16();
+    let nt = s.u64();
+    s.assume((cu == 0 || cu == 1) && nu < NPC && (ct == 0 || ct == 1) && nt < NPC);
+    let du = Duration::from_parts(cu, nu);
+    let dt = Duration::from_parts(ct, nt);
+    let u = Epoch::from_duration(du, TimeScale::UTC);
+    let t = Epoch::from_duration(dt, TimeScale::TAI);
+    // t re-expressed in UTC / u re-expressed in TAI, from the oracle table
+    let t_in_utc = shift_parts(dt.to_parts(), -(super::c06::oracle_delta_at_tai_parts(dt.to_parts()) as i128) * NPS as i128);
+    let u_in_tai = shift_parts(du.to_parts(), super::c06::oracle_delta_at_parts(du.to_parts()) as i128 * NPS as i128);
+    s.assume(t_in_utc.is_some() && u_in_tai.is_some());
+    v_assert!(s, Some((u - t).to_parts()) == sub_parts(du.to_parts(), t_in_utc.unwrap()), "UTC - TAI is measured in UTC");
+    v_assert!(s, Some((t - u).to_parts()) == sub_parts(dt.to_parts(), u_in_tai.unwrap()), "TAI - UTC is measured in TAI");
+    v_cover!(cu == 1 && ct == 0, "across centuries reachable");
 });
